@@ -1,7 +1,10 @@
 package wr
 
 import (
+	"bytes"
 	"errors"
+	"os"
+	"path/filepath"
 	"strings"
 
 	"github.com/benoitkugler/webrender/backend"
@@ -17,6 +20,14 @@ import (
 func Fetcher(url string) (utils.RemoteRessource, error) {
 	if strings.HasPrefix(strings.ToLower(url), "data:") {
 		return utils.DefaultUrlFetcher(url)
+	}
+	// verif-font:<file> serves one of the committed harness fonts (for @font-face rules)
+	if name, ok := strings.CutPrefix(url, "verif-font:"); ok && !strings.ContainsAny(name, "/\\") {
+		b, err := os.ReadFile(filepath.Join(FontDir(), name))
+		if err != nil {
+			return utils.RemoteRessource{}, err
+		}
+		return utils.RemoteRessource{Content: bytes.NewReader(b), MimeType: "font/ttf", RedirectedUrl: url}, nil
 	}
 	return utils.RemoteRessource{}, errors.New("verif: resource not available offline: " + url)
 }
